@@ -52,10 +52,12 @@ def model(D, late_global=False, disturb=None):
     g += d("global", "int[0,%d] v;\n" % UB["global"])
     g += dist("global-before-uses")
     g += "int[0,99] u1 = v;\nchan c[20];\n"
+    g += "int[0,99] tg_arr[v + 1];\ntypedef int[0, v + 50] tg_t;\nint[0,99] fsite2(int[0, v + 70] pq) { return pq; }\n"   # type positions
     g += "int[0,99] fsite(int[0,99] dmy%s) {\n" % d("fparam", ", int[0,%d] v" % UB["fparam"])
     g += " int[0,99] a0 = v;\n"                                                  # f_before_local
     g += d("flocal", " int[0,%d] v;\n" % UB["flocal"])
     g += " int[0,99] a1 = v;\n int[0,99] r = 0;\n"                               # f_after_local
+    g += " int[0, v + 60] tf_l;\n"                                               # type_function_local
     g += " {\n  int[0,99] b0 = v;\n"                                             # blk_before
     g += d("block", "  int[0,%d] v;\n" % UB["block"])
     g += "  int[0,99] b1 = v;\n  r = b0 + b1;\n }\n"                            # blk_inside
@@ -76,6 +78,7 @@ def model(D, late_global=False, disturb=None):
     tdecl = dist("template-local") + "int[0,99] t0 = v;\n"                                                # t_before_local
     tdecl += d("tlocal", "int[0,%d] v;\n" % UB["tlocal"])
     tdecl += "int[0,99] t1 = v;\n"                                               # t_after_local
+    tdecl += "int[0, v + 90] tt_l;\n"                                            # type_template_local
     tdecl += "int[0,99] lfun() { return v; }\n"                                   # tfun
     tdecl += "int[0,pp] w;\n"
     params = "const int pp" + d("tparam", ", const int[0,%d] v" % UB["tparam"])
@@ -83,7 +86,8 @@ def model(D, late_global=False, disturb=None):
     t = X.template("T", params=params, decl=tdecl,
                    locations=[X.location("id0", "L0", inv="v >= 0"), X.location("id1", "L1")], init="id0",    # inv
                    transitions=[X.transition("id0", "id1", select=sel, guard="v >= 0", sync="c[v]!", assign="t1 = v"),
-                                X.transition("id1", "id0", guard="v >= 1", assign="t0 = v")])
+                                X.transition("id1", "id0", select="s2 : int[0, v + 3]", guard="v >= 1", assign="t0 = v"),
+                                X.transition("id1", "id1", guard="forall (qq : int[0, v + 4]) qq >= 0")])
     t2 = X.template("T2", decl="int[0,99] z = v;", locations=[X.location("id2", "M0", inv="v >= 2")], init="id2")   # other template
     system = "int[0,99] sy = v;\nP = T(7%s);\nsystem P, T2;" % d("tparam", ", 1")
     if late_global:
@@ -126,6 +130,13 @@ def reference(D):
     R["e_upd"] = first(D, "select", *tl)
     R["e2_guard"] = first(D, *tl)
     R["e2_upd"] = first(D, *tl)
+    R["type_global_array_size"] = first(D, "global")
+    R["type_global_typedef"] = first(D, "global")
+    R["type_function_parameter"] = first(D, "global")
+    R["type_function_local"] = first(D, *fl)
+    R["type_template_local"] = first(D, *tl)
+    R["type_select_range"] = first(D, *tl)
+    R["type_quantifier_range"] = first(D, *tl)
     R["other_template_local"] = first(D, "global")
     R["other_template_inv"] = first(D, "global")
     R["system_decl"] = first(D, "global")
@@ -224,6 +235,15 @@ def observe(dump):
     e0, e1 = t["edges"][0], t["edges"][1]
     O["e_guard"], O["e_sync"], O["e_upd"] = e0["guard"], e0["sync"], rhs(e0["assign"])
     O["e2_guard"], O["e2_upd"] = e1["guard"], rhs(e1["assign"])
+    gf = {x["name"]: x["type"] for x in dump["globals"]["frame"]}
+    O["type_global_array_size"] = gf.get("tg_arr")
+    O["type_global_typedef"] = gf.get("tg_t")
+    O["type_function_parameter"] = gf.get("fsite2")
+    m_ = re.search(r"tf_l:(\(RANGE .*?\)>\))", body)
+    O["type_function_local"] = m_.group(1) if m_ else None
+    O["type_template_local"] = {x["name"]: x["type"] for x in t["decl"]["frame"]}.get("tt_l")
+    O["type_select_range"] = e1["select"] if len(t["edges"]) > 1 else None
+    O["type_quantifier_range"] = t["edges"][2]["guard"] if len(t["edges"]) > 2 else None
     t2 = dump["templates"][1]
     O["other_template_local"] = {v["name"]: v["init"] for v in t2["decl"]["vars"]}.get("z")
     O["other_template_inv"] = t2["locations"][0]["inv"]
@@ -259,7 +279,7 @@ def run_shard(arg):
     w = engine.worker("fast")
     Ds = [D for k, D in enumerate(subsets()) if k % n == i]       # both tiers: all admissible subsets
     docs = [model(D) for D in Ds]
-    res = X.run_docs(w, docs, want=["dump"], batch=20)
+    res = X.run_docs(w, docs, want=["dump", "typeexprsyms"], batch=20)
     for D, doc, r in zip(Ds, docs, res):
         key = "+".join(sorted(D)) or "none"
         rp = {"op": "xml", "buf": doc, "want": ["dump"], "declared_at": sorted(D)}
@@ -345,7 +365,7 @@ def run_disturbed(arg):
                 cases.append((kind, place, D))
     cases = [c for k, c in enumerate(cases) if k % n == i]
     docs = [model(D, disturb=(kind, place)) for kind, place, D in cases]
-    res = X.run_docs(w, docs, want=["dump"], batch=20)
+    res = X.run_docs(w, docs, want=["dump", "typeexprsyms"], batch=20)
     for (kind, place, D), doc, r in zip(cases, docs, res):
         key = "+".join(sorted(D)) or "none"
         rp = {"op": "xml", "buf": doc, "want": ["dump"], "declared_at": sorted(D), "disturbance": kind, "place": place}
@@ -424,8 +444,8 @@ def main():
     rep = engine.Report(PID, "exploration",
                         "%d subsets of the nine declaration levels of one name (global, template parameter, template local, function "
                         "parameter, function local, nested block, iteration binder, quantifier binder, select binder; pairs that "
-                        "share a frame excluded) x 23 use sites per model (before/after each declaration, inside/outside each scope, "
-                        "labels of an edge with and without the select binder, invariant, another template, system section) + 4 "
+                        "share a frame excluded) x 34 use sites per model (before/after each declaration, inside/outside each scope, "
+                        "labels of an edge with and without the select binder, invariant, another template, system section, statements that start with the name after unbraced constructs, seven positions inside types: array sizes and range bounds of global/typedef/parameter/function-local/template-local/select/quantifier types) + 4 "
                         "queries (v, P.v, P.w with argument substitution, T2.v); reference lexical resolver R3. Error-recovery histories: the same "
                         "use sites after each of %d erroneous declarations (missing return, unknown names, syntax errors inside "
                         "statements / nested blocks / quantifiers / iterations / parameter lists / initialisers, duplicates) that declare "
